@@ -7,7 +7,7 @@ for d in sorted(glob.glob(os.path.join(ROOT, 'seeded', '*'))):
   m = json.load(open(os.path.join(d, 'meta.json')))
   runs = m.get('ran', [])
   first = 'CAUGHT' if 'CAUGHT' in runs[0] else 'MISSED'
-  last = 'CAUGHT' if any('CAUGHT' in r for r in runs[-2:]) else 'MISSED'
+  last = 'CAUGHT' if any('CAUGHT' in r for r in runs[-2:]) else ('not pursued: out of domain' if m.get('note') else 'MISSED')
   keys = []
   for c, v in m.get('checks', {}).items():
     keys += [f'{k}' for k in v.get('keys', [])[:2]]
